@@ -1,0 +1,20 @@
+//go:build verif
+
+package client
+
+// Hooks for the C15 correspondence harness (multipath assignment). Add-only; compiled only
+// with the build tag "verif".
+
+// VerifC15SetPrev pre-sets the state of a previous exchange that the sticky path
+// assignment of MeasureClockOffsetSCION reads (reference, path fingerprint, whether the
+// previous response was interleaved).
+func VerifC15SetPrev(c *SCIONClient, reference, path string, interleaved bool) {
+	c.prev.reference = reference
+	c.prev.path = path
+	c.prev.interleaved = interleaved
+}
+
+// VerifC15Prev returns that state.
+func VerifC15Prev(c *SCIONClient) (reference, path string, interleaved bool) {
+	return c.prev.reference, c.prev.path, c.prev.interleaved
+}
